@@ -897,6 +897,9 @@ def s_re_fullmatch(ev, r, x): return SV(BOOL, re_fullmatch(r.z, x.z))
 
 # ---- tokenised automaton descriptions (C17): sets read off the list of transitions / a list of names; explicit definitions (set comprehensions)
 _LT3d = LIST(KEY3); _LT3ds = sort_of(_LT3d); _LAd = LIST(ATOM); _LAds = sort_of(_LAd)
+char_at = Function('char_at', Atom, Int, Atom)        # label[i] for an opaque string (PDA / TM labels); strlen its length: uninterpreted
+strlen = Function('strlen', Atom, Int)
+tr_chars = Function('tr_chars', _LT3ds, Int, Int, SetA)                  # the i-th characters of the labels of the first n transitions
 tr_labels = Function('tr_labels', _LT3ds, Int, SetA)                      # labels of the first n transitions
 tr_ends = Function('tr_ends', _LT3ds, Int, SetA)                          # end points of the first n transitions
 tr_keys = Function('tr_keys', _LT3ds, Int, sort_of(SET(KEY2)))            # (source, label) of the first n transitions
@@ -910,10 +913,19 @@ def _descr_axioms():
     axiom('descr', 'def', 'tr_ends-intro', ForAll([L, n, t], Implies(And(0 <= t, t < n), And(Select(tr_ends(L, n), f0), Select(tr_ends(L, n), f2))), patterns=[z3.MultiPattern(tr_ends(L, n), el)]))
     axiom('descr', 'def', 'tr_keys-elim', ForAll([L, n, x, y], Implies(Select(tr_keys(L, n), mkKey2(x, y)), Exists([t], And(0 <= t, t < n, f0 == x, f1 == y))), patterns=[Select(tr_keys(L, n), mkKey2(x, y))]))
     axiom('descr', 'def', 'tr_keys-intro', ForAll([L, n, t], Implies(And(0 <= t, t < n), Select(tr_keys(L, n), mkKey2(f0, f1))), patterns=[z3.MultiPattern(tr_keys(L, n), el)]))
+    i_ = Const('i_', Int)
+    axiom('descr', 'def', 'tr_chars-elim', ForAll([L, n, i_, x], Implies(Select(tr_chars(L, n, i_), x), Exists([t], And(0 <= t, t < n, char_at(f1, i_) == x))), patterns=[Select(tr_chars(L, n, i_), x)]))
+    axiom('descr', 'def', 'tr_chars-intro', ForAll([L, n, i_, t], Implies(And(0 <= t, t < n), Select(tr_chars(L, n, i_), char_at(f1, i_))), patterns=[z3.MultiPattern(tr_chars(L, n, i_), el)]))
     marr = parts(_LAd)[3](M); mlen = parts(_LAd)[2](M)
     axiom('descr', 'def', 'list_elems-elim', ForAll([M, x], Implies(Select(list_elems(M), x), Exists([t], And(0 <= t, t < mlen, Select(marr, t) == x))), patterns=[Select(list_elems(M), x)]))
     axiom('descr', 'def', 'list_elems-intro', ForAll([M, t], Implies(And(0 <= t, t < mlen), Select(list_elems(M), Select(marr, t))), patterns=[z3.MultiPattern(list_elems(M), Select(marr, t))]))
 _descr_axioms()
+@spec('tr_chars')
+def s_tr_chars(ev, L, n, i): return SV(SET(ATOM), tr_chars(L.z, n.z, i.z))
+@spec('char_at')
+def s_char_at(ev, a, i): return SV(ATOM, char_at(a.z, i.z))
+@spec('strlen')
+def s_strlen(ev, a): return SV(INT, strlen(a.z))
 @spec('tr_labels')
 def s_tr_labels(ev, L, n): return SV(SET(ATOM), tr_labels(L.z, n.z))
 @spec('tr_ends')
